@@ -1,4 +1,7 @@
-"""Graph exports (C17), pretty printing (C16), diff (C11)."""
+"""Graph exports (C17), pretty printing (C16), diff (C11).
+
+Shapes are matched with structural patterns (sa.pat): locals are metavariables,
+API names literal."""
 from __future__ import annotations
 
 import ast
@@ -6,6 +9,7 @@ from typing import Dict, List, Optional, Set, Tuple
 
 from ..core import Ctx, Ob, rule
 from ..model import AnalysisError, Func, iter_own, norm
+from ..pat import find, has, match, one
 from .trav import _if_chain
 
 
@@ -15,9 +19,12 @@ def _loops_over(f: Func, name: str) -> List[ast.For]:
 
 def _key_func(ctx: Ctx, f: Func) -> Optional[Func]:
     for g in f.nested:
-        rets = [n for n in iter_own(g.node) if isinstance(n, ast.Return) and isinstance(n.value, ast.IfExp)]
-        if len(rets) == 1 and norm(rets[0].value.test) == "unique_nodes":
-            return g
+        if len(g.positional_params()) != 1:
+            continue
+        p = g.positional_params()[0]
+        for n in iter_own(g.node):
+            if isinstance(n, ast.Return) and n.value is not None and match(f"{p}._data_id if unique_nodes else {p}._node_id", n.value) is not None:
+                return g
     return None
 
 
@@ -26,136 +33,141 @@ def sib_export(ctx: Ctx) -> List[Ob]:
     """DOT and Mermaid exporters agree: node loop and edge loop range over the same iteration, keys come from one key function (data_id iff unique_nodes), the edge loop skips exactly the edges leaving an excluded root and emits one edge per node; RDF adds one has_child triple per child with a parent"""
     obs: List[Ob] = []
     m = ctx.model
+
+    def O(f, label, ok, why="", node=None):
+        obs.append(ctx.ob("SIB-EXPORT", ["C17"], f, label, node, bool(ok), "" if ok else why))
+
     specs = [("node_to_dot", "add_self"), ("_node_to_mermaid_flowchart_iter", "add_root")]
     for q, flag in specs:
         f = m.func(q)
         kf = _key_func(ctx, f)
-        ok = kf is not None
-        if ok:
-            r = [n for n in iter_own(kf.node) if isinstance(n, ast.Return)][0].value
-            p = kf.positional_params()[0]
-            ok = norm(r.body) == f"{p}._data_id" and norm(r.orelse) == f"{p}._node_id"
-        obs.append(ctx.ob("SIB-EXPORT", ["C17"], f, f"{q}: key(n) = n._data_id if unique_nodes else n._node_id", None, ok,
-                          "" if ok else "one graph node per distinct data_id, or per tree node when unique_nodes is off"))
+        O(f, f"{q}: key(n) = n._data_id if unique_nodes else n._node_id", kf is not None,
+          "one graph node per distinct data_id, or per tree node when unique_nodes is off")
         kname = kf.name if kf else "?"
         loops = _loops_over(f, "node")
-        ok = len(loops) == 2
-        obs.append(ctx.ob("SIB-EXPORT", ["C17"], f, f"{q}: node loop and edge loop both iterate `node` (same pre-order walk)", None, ok,
-                          "" if ok else f"{len(loops)} loops over the start node"))
+        O(f, f"{q}: node loop and edge loop both iterate `node` (same pre-order walk)", len(loops) == 2, f"{len(loops)} loops over the start node")
         if len(loops) != 2:
             continue
         nl, el = loops
+        nv, ev = norm(nl.target), norm(el.target)
         # node loop: de-dup by key with continue, one yield
         ys = [x for st in nl.body for x in ast.walk(st) if isinstance(x, ast.Yield)]
         conts = [x for st in nl.body for x in ast.walk(st) if isinstance(x, ast.Continue)]
         ok = len(ys) == 1 and len(conts) == 1
         if ok:
             cp = m.parent_of(conts[0])
-            ok = isinstance(cp, ast.If) and isinstance(cp.test, ast.Compare) and isinstance(cp.test.ops[0], ast.In) and norm(cp.test.left) == "key"
-            seen = norm(cp.test.comparators[0]) if ok else "?"
-            # the key is recorded after the membership test
-            rec = [x for st in nl.body for x in ast.walk(st)
-                   if (isinstance(x, ast.Call) and norm(x.func) == f"{seen}.add" and norm(x.args[0]) == "key")
-                   or (isinstance(x, ast.Assign) and norm(x.targets[0]) == f"{seen}[key]")]
-            ok = ok and len(rec) == 1
-        obs.append(ctx.ob("SIB-EXPORT", ["C17"], f, f"{q}: node loop defines each key once (skip when seen, record when new)", nl, ok,
-                          "" if ok else "clones must share one graph node when unique_nodes is on, and every other node must be defined"))
+            e = match("$k in $seen", cp.test) if isinstance(cp, ast.If) else None
+            ok = e is not None
+            if ok:
+                rec = find("$seen.add($k)", nl, e) + find("$seen[$k] = $$v", nl, e)
+                ok = len(rec) == 1 and rec[0][0].lineno > conts[0].lineno
+                # the key is the key function's choice for this node
+                kd = find(f"$k = {kname}({nv})", nl, e) + find(f"$k = {nv}._data_id", nl, e)
+                ok = ok and len(kd) >= 1
+        O(f, f"{q}: node loop defines each key once (skip when seen, record when new)", ok,
+          "clones must share one graph node when unique_nodes is on, and every other node must be defined", nl)
         # edge loop
         first = el.body[0]
-        ok = isinstance(first, ast.If) and norm(first.test) == f"not {flag} and n._parent is node" and len(first.body) == 1 and isinstance(first.body[0], ast.Continue)
-        obs.append(ctx.ob("SIB-EXPORT", ["C17"], f, f"{q}: the edge loop skips exactly `not {flag} and n._parent is node`", el, ok,
-                          "" if ok else "excluding the root omits the root node and the edges leaving it and nothing else"))
+        ok = match(f"if not {flag} and {ev}._parent is node:\n    continue", first) is not None
+        O(f, f"{q}: the edge loop skips exactly `not {flag} and n._parent is node` (identity)", ok,
+          "excluding the root omits the root node and the edges leaving it and nothing else (edges leaving an inner clone of the start node stay)", el)
         conts = [x for st in el.body for x in ast.walk(st) if isinstance(x, (ast.Continue, ast.Break))]
         ys = [x for st in el.body for x in ast.walk(st) if isinstance(x, ast.Yield)]
-        ok = len(conts) == 1 and len(ys) == 1
-        obs.append(ctx.ob("SIB-EXPORT", ["C17"], f, f"{q}: exactly one edge statement per remaining node", el, ok,
-                          "" if ok else f"{len(ys)} yields / {len(conts)} skips in the edge loop"))
-        body_txt = " | ".join(norm(st) for st in el.body)
-        ok = f"{kname}(n._parent)" in body_txt and f"{kname}(n)" in body_txt
-        obs.append(ctx.ob("SIB-EXPORT", ["C17"], f, f"{q}: an edge runs from key(n._parent) to key(n)", el, ok,
-                          "" if ok else "the edge must connect the parent's key to the child's key"))
-        # root emission under the flag, before the loops
+        O(f, f"{q}: exactly one edge statement per remaining node", len(conts) == 1 and len(ys) == 1, f"{len(ys)} yields / {len(conts)} skips in the edge loop", el)
+        ok = has(f"{kname}({ev}._parent)", el) and has(f"{kname}({ev})", el)
+        O(f, f"{q}: an edge runs from key(n._parent) to key(n)", ok, "the edge must connect the parent's key to the child's key", el)
         roots = [n for n in f.body if isinstance(n, ast.If) and norm(n.test) == flag and any(isinstance(x, ast.Yield) for st in n.body for x in ast.walk(st))]
-        ok = len(roots) == 1 and roots[0].lineno < nl.lineno
-        obs.append(ctx.ob("SIB-EXPORT", ["C17"], f, f"{q}: the root node is defined iff {flag}", None, ok, "" if ok else "root definition must follow the flag"))
-    # dot: node key in the node loop equals the key function's choice
+        O(f, f"{q}: the root node is defined iff {flag}", len(roots) == 1 and roots[0].lineno < nl.lineno, "root definition must follow the flag")
+    # dot specifics
     f = m.func("node_to_dot")
-    nl = _loops_over(f, "node")[0] if _loops_over(f, "node") else None
-    if nl is not None:
-        first = nl.body[0]
-        ok = isinstance(first, ast.If) and norm(first.test) == "unique_nodes" and norm(first.body[0]) == "key = n._data_id" \
-            and first.orelse and norm(first.orelse[0]) == "key = n._node_id"
-        obs.append(ctx.ob("SIB-EXPORT", ["C17"], f, "node_to_dot: the node loop's key agrees with the key function", nl, ok,
-                          "" if ok else "node definitions and edge endpoints must use the same key"))
-        lab = [st for st in nl.body if isinstance(st, ast.Assign) and norm(st.targets[0]) == "attr_def"]
-        ok = len(lab) == 1 and norm(lab[0].value) == "{'label': n.name}"
-        obs.append(ctx.ob("SIB-EXPORT", ["C17"], f, "node_to_dot: node definitions carry the node's name as label", nl, ok, "" if ok else "exports carry the child's name"))
-    # mermaid: index table
+    lps = _loops_over(f, "node")
+    if lps:
+        nl = lps[0]
+        nv = norm(nl.target)
+        ok = match(f"if unique_nodes:\n    $k = {nv}._data_id\n    ...\nelse:\n    $k = {nv}._node_id", nl.body[0]) is not None or \
+            (isinstance(nl.body[0], ast.If) and norm(nl.body[0].test) == "unique_nodes" and has(f"$k = {nv}._data_id", nl.body[0].body) and has(f"$k = {nv}._node_id", nl.body[0].orelse))
+        O(f, "node_to_dot: the node loop's key agrees with the key function", ok, "node definitions and edge endpoints must use the same key", nl)
+        O(f, "node_to_dot: node definitions carry the node's name as label", has(f"{{'label': {nv}.name}}", nl), "exports carry the child's name", nl)
+        if len(lps) == 2:
+            el = lps[1]
+            ev = norm(el.target)
+            kf = _key_func(ctx, f)
+            kn = kf.name if kf else "?"
+            O(f, "node_to_dot: edge statement `key(parent) -> key(child)`", any(f"{{{kn}({ev}._parent)}} -> {{{kn}({ev})}}" in norm(x) for x in ast.walk(el) if isinstance(x, ast.JoinedStr)),
+              "edge direction parent -> child", el)
+    # mermaid specifics
     f = m.func("_node_to_mermaid_flowchart_iter")
     lps = _loops_over(f, "node")
+    kf = _key_func(ctx, f)
+    kn = kf.name if kf else "?"
     if len(lps) == 2:
         nl, el = lps
-        t = " | ".join(norm(st) for st in nl.body)
-        ok = "id_to_idx[key] = idx" in t and "idx += 1" in t and "key = _id(n)" in t
-        obs.append(ctx.ob("SIB-EXPORT", ["C17"], f, "mermaid: every new key gets the next index", nl, ok, "" if ok else "node numbering broken"))
-        t = " | ".join(norm(st) for st in el.body)
-        ok = "parent_idx = id_to_idx[parent_key]" in t and "idx = id_to_idx[key]" in t and "edge_mapper(parent_idx, n._parent, idx, n)" in t
-        obs.append(ctx.ob("SIB-EXPORT", ["C17"], f, "mermaid: edges are looked up through the same index table", el, ok, "" if ok else "edge endpoints must be the indices of the defined nodes"))
-        rt = [st for st in ast.walk(f.node) if isinstance(st, ast.Assign) and norm(st.targets[0]) == "id_to_idx[_id(node)]"]
-        ok = len(rt) == 1 and norm(rt[0].value) == "0"
-        obs.append(ctx.ob("SIB-EXPORT", ["C17"], f, "mermaid: the root is node 0", None, ok, ""))
-    # default typed edge template
-    em = [g for g in f.nested if g.name == "edge_mapper" and any("kind" in norm(x) for x in iter_own(g.node))]
-    ok = False
-    if em:
-        t = " | ".join(norm(st) for st in em[0].body)
-        ok = "kind = getattr(to_node, 'kind', None)" in t and "DEFAULT_EDGE_TEMPLATE_TYPED if kind else DEFAULT_EDGE_TEMPLATE" in t
-    obs.append(ctx.ob("SIB-EXPORT", ["C17"], f, "mermaid: the default edge is labelled with the child's kind iff it has one", None, ok, "" if ok else "typed trees label edges with the child's kind"))
-    # TypedNode.to_dot edge labels
-    f = m.func("TypedNode.to_dot")
-    em = [g for g in f.nested if "label" in " ".join(norm(x) for x in g.body)]
+        nv, ev = norm(nl.target), norm(el.target)
+        e = one(f"$k = {kn}({nv})", nl)
+        ok = e is not None
+        if ok:
+            st = one("$tab[$k] = $idx", nl, e)
+            ok = st is not None and has("$idx += 1", nl, {"$idx": st[1]["$idx"]})
+            tab = st[1]["$tab"] if st else "?"
+        O(f, "mermaid: every new key gets the next index", ok, "node numbering broken", nl)
+        if ok:
+            ok2 = has(f"$pi = {tab}[$pk]", el) and has(f"$pk = {kn}({ev}._parent)", el) and has(f"$ci = {tab}[$ck]", el) and has(f"$ck = {kn}({ev})", el)
+            calls = [c for c in ast.walk(el) if isinstance(c, ast.Call) and norm(c.func) == "edge_mapper"]
+            ok2 = ok2 and len(calls) == 1 and len(calls[0].args) == 4 and norm(calls[0].args[1]) == f"{ev}._parent" and norm(calls[0].args[3]) == ev
+            O(f, "mermaid: edges are looked up through the same index table (parent index, parent, child index, child)", ok2, "edge endpoints must be the indices of the defined nodes", el)
+            O(f, "mermaid: the root is node 0", has(f"{tab}[{kn}(node)] = 0", f.node))
+    em = [g for g in f.nested if g.name == "edge_mapper" and has("getattr($t, 'kind', None)", g.node)]
     ok = False
     if em:
         g = em[0]
-        p0, p1 = g.positional_params()[:2]
-        t = " | ".join(norm(st) for st in g.body)
-        ok = f"{p1}['label'] = {p0}.kind" in t and "edge_mapper" in t
-        calls = [c for c in ctx.env.calls_in[f] if any(k.arg == "edge_mapper" and norm(k.value) == g.name for k in c.keywords)]
-        ok = ok and len(calls) == 1
-    obs.append(ctx.ob("SIB-EXPORT", ["C17"], f, "typed DOT export labels every edge with the child's kind and still calls the user's edge mapper", None, ok,
-                      "" if ok else "typed edge labels lost"))
+        to = g.positional_params()[3] if len(g.positional_params()) == 4 else "to_node"
+        e = one(f"$k = getattr({to}, 'kind', None)", g.node)
+        ok = e is not None and has("DEFAULT_EDGE_TEMPLATE_TYPED if $k else DEFAULT_EDGE_TEMPLATE", g.node, e)
+    O(f, "mermaid: the default edge is labelled with the child's kind iff it has one", ok, "typed trees label edges with the child's kind")
+    # TypedNode.to_dot edge labels
+    f = m.func("TypedNode.to_dot")
+    ok = False
+    for g in f.nested:
+        if len(g.positional_params()) >= 2:
+            p0, p1 = g.positional_params()[:2]
+            if has(f"{p1}['label'] = {p0}.kind", g.node) and has(f"edge_mapper({p0}, {p1})", g.node):
+                calls = [c for c in ctx.env.calls_in[f] if any(k.arg == "edge_mapper" and norm(k.value) == g.name for k in c.keywords)]
+                ok = len(calls) == 1
+    O(f, "typed DOT export labels every edge with the child's kind and still calls the user's edge mapper", ok, "typed edge labels lost")
     # RDF
     f = m.func("_add_child_node")
-    hc = [c for c in ast.walk(f.node) if isinstance(c, ast.Call) and norm(c.func) == "graph.add" and "has_child" in norm(c)]
-    ok = len(hc) == 1 and norm(hc[0].args[0]) == "(parent_graph_node, NUTREE_NS.has_child, graph_node)"
-    p = m.parent_of(m.parent_of(hc[0])) if hc else None
-    ok = ok and isinstance(p, ast.If) and "parent_graph_node" in norm(p.test)
-    obs.append(ctx.ob("SIB-EXPORT", ["C17"], f, "rdf: one has_child triple parent -> child, iff there is a parent graph node", None, ok, "" if ok else "edge triple missing or misdirected"))
-    kd = [c for c in ast.walk(f.node) if isinstance(c, ast.Call) and norm(c.func) == "graph.add" and "NUTREE_NS.kind" in norm(c)]
-    ok = len(kd) == 1 and isinstance(m.parent_of(m.parent_of(kd[0])), ast.If) and "hasattr(tree_node, 'kind')" in norm(m.parent_of(m.parent_of(kd[0])).test) \
-        and "Literal(tree_node.kind)" in norm(kd[0])
-    obs.append(ctx.ob("SIB-EXPORT", ["C17"], f, "rdf: typed nodes get a kind triple", None, ok, "" if ok else "kind must be exported for typed trees"))
-    nm = [c for c in ast.walk(f.node) if isinstance(c, ast.Call) and norm(c.func) == "graph.add" and "NUTREE_NS.name" in norm(c)]
-    ok = len(nm) == 1 and "Literal(tree_node.name)" in norm(nm[0])
-    obs.append(ctx.ob("SIB-EXPORT", ["C17"], f, "rdf: every node gets a name triple", None, ok, ""))
-    gn = [st for st in f.body if isinstance(st, ast.Assign) and norm(st.targets[0]) == "graph_node"]
-    ok = len(gn) == 1 and norm(gn[0].value) == "Literal(tree_node.data_id)"
-    obs.append(ctx.ob("SIB-EXPORT", ["C17"], f, "rdf: graph nodes are keyed by data_id", None, ok, ""))
+    gp, pp, tp = f.positional_params()[0], f.positional_params()[1], f.positional_params()[2]
+    gn = one(f"$g = Literal({tp}.data_id)", f.node)
+    O(f, "rdf: graph nodes are keyed by data_id", gn is not None)
+    g_ = gn[1]["$g"] if gn else "graph_node"
+    hc = find(f"{gp}.add(({pp}, NUTREE_NS.has_child, {g_}))", f.node)
+    ok = len(hc) == 1
+    if ok:
+        p_ = m.parent_of(m.parent_of(hc[0][0]))
+        ok = isinstance(p_, ast.If) and match(f"{pp} is not None", p_.test) is not None
+    O(f, "rdf: one has_child triple parent -> child, iff there is a parent graph node (tested with `is not None`)", ok, "edge triple missing or misdirected")
+    kd = find(f"{gp}.add(({g_}, NUTREE_NS.kind, Literal({tp}.kind)))", f.node)
+    ok = len(kd) == 1 and isinstance(m.parent_of(m.parent_of(kd[0][0])), ast.If) and has(f"hasattr({tp}, 'kind')", m.parent_of(m.parent_of(kd[0][0])).test)
+    O(f, "rdf: typed nodes get a kind triple", ok, "kind must be exported for typed trees")
+    O(f, "rdf: every node gets a name triple", len(find(f"{gp}.add(({g_}, NUTREE_NS.name, Literal({tp}.name)))", f.node)) == 1)
     f = m.func("_add_child_nodes")
+    gp, gnp, tp = f.positional_params()[:3]
     lps = [n for n in iter_own(f.node) if isinstance(n, ast.For)]
-    ok = len(lps) == 1 and norm(lps[0].iter) in ("enumerate(tree_node._children or ())", "enumerate(tree_node.children)")
+    ok = len(lps) == 1 and (match(f"enumerate({tp}._children or ())", lps[0].iter) is not None or match(f"enumerate({tp}.children)", lps[0].iter) is not None) \
+        and isinstance(lps[0].target, ast.Tuple)
     if ok:
         lp = lps[0]
+        iv, cv = norm(lp.target.elts[0]), norm(lp.target.elts[1])
         calls = [c for c in ast.walk(lp) if isinstance(c, ast.Call) and norm(c.func) == "_add_child_node"]
         recs = [c for c in ast.walk(lp) if isinstance(c, ast.Call) and norm(c.func) == "_add_child_nodes"]
         ok = len(calls) == 1 and len(recs) == 1
         if ok:
-            kw = {k.arg: norm(k.value) for k in calls[0].keywords}
-            cv = norm(lp.target.elts[1])
-            ok = kw.get("parent_graph_node") == "graph_node" and kw.get("tree_node") == cv and kw.get("index") == norm(lp.target.elts[0])
+            g0 = m.func("_add_child_node")
+            act = {p: ctx.env._actual_for(g0, calls[0], p) for p in ("parent_graph_node", "tree_node", "index")}
+            ok = all(v is not None for v in act.values()) and norm(act["parent_graph_node"]) == gnp and norm(act["tree_node"]) == cv and norm(act["index"]) == iv
             tgt = [st for st in lp.body if isinstance(st, ast.Assign) and st.value is calls[0]]
-            ok = ok and len(tgt) == 1 and [norm(a) for a in recs[0].args][:3] == ["graph", norm(tgt[0].targets[0]), cv]
-    obs.append(ctx.ob("SIB-EXPORT", ["C17"], f, "rdf: each child is added below this node's graph node and recursed into once", None, ok, "" if ok else "edges must follow the tree's parent-child relation"))
+            ok = ok and len(tgt) == 1 and [norm(a) for a in recs[0].args][:3] == [gp, norm(tgt[0].targets[0]), cv]
+    O(f, "rdf: each child is added below this node's graph node and recursed into once", ok, "edges must follow the tree's parent-child relation")
     return obs
 
 
@@ -165,6 +177,10 @@ def render(ctx: Ctx) -> List[Ob]:
     """pretty printing: the style table is well-formed (4/6 string segments of consistent width), _get_prefix picks one indent segment per ancestor by identity-last and one connector by (last, has children), lines are yielded once per node of the default walk, the render path calls no kind-sensitive override, title plumbing of Tree.format_iter"""
     obs: List[Ob] = []
     m = ctx.model
+
+    def O(f, label, ok, why="", node=None):
+        obs.append(ctx.ob("RENDER", ["C16"], f, label, node, bool(ok), "" if ok else why))
+
     conn = m.globals["common"].get("CONNECTORS")
     try:
         table = ast.literal_eval(conn)
@@ -182,68 +198,90 @@ def render(ctx: Ctx) -> List[Ob]:
                 ok, why = False, "connector segments differ in width"
             elif len(segs) == 6 and (segs[2] == segs[4] or segs[3] == segs[5]):
                 ok, why = False, "compact style does not distinguish nodes with children"
-        obs.append(ctx.ob("RENDER", ["C16"], "common:CONNECTORS", f"style '{name}' is well-formed", None, ok, why))
+        O("common:CONNECTORS", f"style '{name}' is well-formed", ok, why)
     f = m.func("Node._get_prefix")
-    ifs = [n for n in f.body if isinstance(n, ast.If) and "len(style)" in norm(n.test)]
+    sp, lsp = [p for p in f.positional_params() if p != f.self_name][:2]
+    ifs = [n for n in f.body if isinstance(n, ast.If) and has(f"len({sp})", n.test)]
     ok = False
+    S: Dict[str, object] = {}
     if ifs:
         ch = _if_chain(ifs[0])
         tests = [norm(t) if t is not None else "else" for t, _ in ch]
-        ok = tests == ["len(style) == 4", "len(style) == 6", "else"] and isinstance(ch[2][1][-1], ast.Raise) and "ValueError" in norm(ch[2][1][-1])
-        b4 = " | ".join(norm(s) for s in ch[0][1])
-        ok = ok and "s0, s1, s2, s3 = style" in b4 and "s4 = s2" in b4 and "s5 = s3" in b4
-        ok = ok and "s0, s1, s2, s3, s4, s5 = style" in " | ".join(norm(s) for s in ch[1][1])
-    obs.append(ctx.ob("RENDER", ["C16"], f, "_get_prefix accepts 4- and 6-segment styles (4: s4=s2, s5=s3) and rejects others", None, ok, "" if ok else "custom 4- and 6-tuples must work in every style"))
-    il = [g for g in f.nested if g.name == "_is_last"]
+        ok = tests == [f"len({sp}) == 4", f"len({sp}) == 6", "else"] and isinstance(ch[2][1][-1], ast.Raise) and "ValueError" in norm(ch[2][1][-1])
+        if ok:
+            e6 = one(f"$s0, $s1, $s2, $s3, $s4, $s5 = {sp}", ch[1][1])
+            ok = e6 is not None
+            if ok:
+                S = e6[1]
+                ok = has(f"$s0, $s1, $s2, $s3 = {sp}", ch[0][1], S) and has("$s4 = $s2", ch[0][1], S) and has("$s5 = $s3", ch[0][1], S)
+    O(f, "_get_prefix accepts 4- and 6-segment styles (4: s4=s2, s5=s3) and rejects others", ok, "custom 4- and 6-tuples must work in every style")
+    il = [g for g in f.nested if len(g.positional_params()) == 1]
     ok = False
-    if il:
-        p = il[0].positional_params()[0]
-        r = [n for n in iter_own(il[0].node) if isinstance(n, ast.Return)]
-        ok = len(r) == 1 and norm(r[0].value) == f"{p} is {p}._parent._children[-1]"
-    obs.append(ctx.ob("RENDER", ["C16"], f, "_is_last: identity comparison with the parent's last child (not a kind-aware override)", None, ok,
-                      "" if ok else "is-last must refer to the full sibling list, by identity"))
+    iln = "?"
+    for g in il:
+        p = g.positional_params()[0]
+        r = [n for n in iter_own(g.node) if isinstance(n, ast.Return)]
+        if len(r) == 1 and match(f"{p} is {p}._parent._children[-1]", r[0].value) is not None:
+            ok = True
+            iln = g.name
+    O(f, "_is_last: identity comparison with the parent's last child (not a kind-aware override, not ==)", ok, "is-last must refer to the full sibling list, by identity")
     lps = [n for n in iter_own(f.node) if isinstance(n, ast.For)]
-    ok = len(lps) == 1 and norm(lps[0].iter) == "self.get_parent_list()"
+    ok = len(lps) == 1 and match("self.get_parent_list()", lps[0].iter) is not None and bool(S)
     if ok:
         lp = lps[0]
-        t = [norm(s) for s in lp.body]
-        ok = t[0] == "depth += 1" and isinstance(lp.body[1], ast.If) and norm(lp.body[1].test) == "depth <= lstrip" and isinstance(lp.body[1].body[0], ast.Continue)
+        pv = norm(lp.target)
+        e = match("$d += 1", lp.body[0])
+        ok = e is not None and match(f"if $d <= {lsp}:\n    continue", lp.body[1], e) is not None
         last = lp.body[-1]
-        ok = ok and isinstance(last, ast.If) and norm(last.test) == f"_is_last({norm(lp.target)})" and norm(last.body[0]) == "parts.append(s0)" and norm(last.orelse[0]) == "parts.append(s1)"
-    obs.append(ctx.ob("RENDER", ["C16"], f, "one indent segment per ancestor beyond lstrip: s0 below a last sibling, s1 otherwise", None, ok,
-                      "" if ok else "the prefix must encode for every ancestor whether it is a last sibling"))
-    own = [n for n in f.body if isinstance(n, ast.If) and norm(n.test) == "depth >= lstrip"]
+        e2 = match(f"if {iln}({pv}):\n    $parts.append($s0)\nelse:\n    $parts.append($s1)", last, {k: v for k, v in S.items() if k in ("$s0", "$s1")})
+        ok = ok and e2 is not None
+        if ok:
+            S = {**S, **e, **e2}
+    O(f, "one indent segment per ancestor beyond lstrip: s0 below a last sibling, s1 otherwise", ok, "the prefix must encode for every ancestor whether it is a last sibling")
     ok = False
-    if own:
-        inner = [n for n in own[0].body if isinstance(n, ast.If)]
-        if len(inner) == 1 and norm(inner[0].test) == "self._children":
-            def pick(branch):
-                st = branch[0]
-                return (norm(st.test), norm(st.body[0]), norm(st.orelse[0])) if isinstance(st, ast.If) and st.orelse else None
-            ok = pick(inner[0].body) == ("_is_last(self)", "parts.append(s4)", "parts.append(s5)") and \
-                pick(inner[0].orelse) == ("_is_last(self)", "parts.append(s2)", "parts.append(s3)")
-    obs.append(ctx.ob("RENDER", ["C16"], f, "own connector: (has children, last) -> s4/s5, (leaf, last) -> s2/s3", None, ok,
-                      "" if ok else "the connector must encode is-last and (compact styles) has-children"))
+    if "$d" in S and "$parts" in S:
+        own = [n for n in f.body if isinstance(n, ast.If) and match(f"$d >= {lsp}", n.test, S) is not None]
+        if own:
+            ok = match(
+                f"if self._children:\n    if {iln}(self):\n        $parts.append($s4)\n    else:\n        $parts.append($s5)\n"
+                f"else:\n    if {iln}(self):\n        $parts.append($s2)\n    else:\n        $parts.append($s3)", own[0].body[0], S) is not None
+        ok = ok and any(match("''.join($parts)", r.value, S) is not None for r in [n for n in iter_own(f.node, into_lambda=False) if isinstance(n, ast.Return) and n.value is not None])
+    O(f, "own connector: (has children, last) -> s4/s5, (leaf, last) -> s2/s3", ok, "the connector must encode is-last and (compact styles) has-children")
     rl = m.func("Node._render_lines")
     lps = [n for n in iter_own(rl.node) if isinstance(n, ast.For)]
-    ok = len(lps) == 1 and norm(lps[0].iter) == "self.iterator(add_self=add_self)"
+    ok = len(lps) == 1 and match("self.iterator(add_self=add_self)", lps[0].iter) is not None
+    lsv = None
     if ok:
-        ys = [x for st in lps[0].body for x in ast.walk(st) if isinstance(x, ast.Yield)]
-        ok = len(ys) == 1 and norm(ys[0].value) == "prefix + s" and not any(isinstance(x, (ast.Continue, ast.Break)) for st in lps[0].body for x in ast.walk(st))
-        pf = [st for st in lps[0].body if isinstance(st, ast.Assign) and norm(st.targets[0]) == "prefix"]
-        ok = ok and len(pf) == 1 and norm(pf[0].value) == f"{norm(lps[0].target)}._get_prefix(style, lstrip)"
-    obs.append(ctx.ob("RENDER", ["C16"], rl, "_render_lines yields prefix + rendering exactly once per node of the default (pre-order) walk", None, ok, "" if ok else "one line per node, in pre-order"))
-    t = " | ".join(norm(s) for s in rl.body)
-    ok = "lstrip = self.depth()" in t and "if not add_self: lstrip += 1" in t.replace("\n", " ") and "if not self._parent: add_self = False" in t.replace("\n", " ")
-    obs.append(ctx.ob("RENDER", ["C16"], rl, "left-strip: own depth (+1 without add_self); the system root is never rendered", None, ok, "" if ok else "branches must be rendered relative to the start node"))
+        lp = lps[0]
+        nv = norm(lp.target)
+        pf = one(f"$pf = {nv}._get_prefix(style, $ls)", lp)
+        ok = pf is not None
+        if ok:
+            lsv = pf[1]["$ls"]
+            ys = [x for st in lp.body for x in ast.walk(st) if isinstance(x, ast.Yield)]
+            ok = len(ys) == 1 and match("$pf + $s", ys[0].value, {"$pf": pf[1]["$pf"]}) is not None \
+                and not any(isinstance(x, (ast.Continue, ast.Break)) for st in lp.body for x in ast.walk(st))
+    O(rl, "_render_lines yields prefix + rendering exactly once per node of the default (pre-order) walk", ok, "one line per node, in pre-order")
+    ok = lsv is not None and has(f"{lsv} = self.depth()", rl.node) and has(f"if not add_self:\n    {lsv} += 1", rl.node) and has("if not self._parent:\n    add_self = False", rl.node)
+    O(rl, "left-strip: own depth (+1 without add_self); the system root is never rendered", ok, "branches must be rendered relative to the start node")
     fi = m.func("Node.format_iter")
-    lst = [n for n in fi.body if isinstance(n, ast.If) and norm(n.test) == "style == 'list'"]
+    lst = [n for n in fi.body if isinstance(n, ast.If) and match("style == 'list'", n.test) is not None]
     ok = len(lst) == 1
     if ok:
         lps = [n for n in lst[0].body if isinstance(n, ast.For)]
-        ok = len(lps) == 1 and norm(lps[0].iter) == "self.iterator(add_self=add_self)" and sum(isinstance(x, ast.Yield) for st in lps[0].body for x in ast.walk(st)) == 2 \
-            and isinstance(lst[0].body[-1], ast.Return)
-    obs.append(ctx.ob("RENDER", ["C16"], fi, "list style emits the renderings only, once per node", None, ok, "" if ok else "style='list' has no prefixes"))
+        ok = len(lps) == 1 and match("self.iterator(add_self=add_self)", lps[0].iter) is not None \
+            and sum(isinstance(x, ast.Yield) for st in lps[0].body for x in ast.walk(st)) == 2 and isinstance(lst[0].body[-1], ast.Return)
+    O(fi, "list style emits the renderings only, once per node of the walk", ok, "style='list' has no prefixes")
+    # add_self is only ever overridden by the system-root guard
+    for g in (fi, rl):
+        asg = [n for n in iter_own(g.node) if isinstance(n, ast.Assign) and any(norm(t) == "add_self" for t in n.targets)]
+        ok = all(norm(a.value) == "False" and isinstance(m.parent_of(a), ast.If) and norm(m.parent_of(a).test) in ("not self._parent", "self._parent is None") for a in asg)
+        O(g, f"{g.name}: add_self is the caller's choice (only the system root is forced off)", ok,
+          "add_self=False on a branch must omit the start node, add_self=True must include it, in every style")
+    if len(lst) == 1:
+        ok = has("if not self._parent:\n    add_self = False", lst[0].body) or has("if self._parent is None:\n    add_self = False", lst[0].body)
+        O(fi, "list style never renders the invisible system root", ok,
+          "tree.format(style='list', title=...) would emit an extra line for the system root")
     # render path calls no kind-sensitive override
     seen: Set[Func] = set()
     stack = [m.func("Node._render_lines"), m.func("Node._get_prefix")]
@@ -260,112 +298,134 @@ def render(ctx: Ctx) -> List[Ob]:
                 if h.module in ("node", "typed_tree") and h.name in ("get_parent_list", "depth", "calc_depth", "iterator", "_iter_pre"):
                     stack.append(h)
         stack.extend(g.nested)
-    obs.append(ctx.ob("RENDER", ["C16"], "node:Node._get_prefix", "the prefix computation calls no kind-sensitive method of TypedNode", None, not offenders,
-                      "" if not offenders else f"{offenders[0][0].qualname} calls {norm(offenders[0][1])} -> {offenders[0][2].qualname}: in a typed tree "
-                      "is-last/first would be judged per kind and the connectors would lie about the shape"))
-    # Tree.format_iter title plumbing
+    O("node:Node._get_prefix", "the prefix computation calls no kind-sensitive method of TypedNode", not offenders,
+      "" if not offenders else f"{offenders[0][0].qualname} calls {norm(offenders[0][1])} -> {offenders[0][2].qualname}: in a typed tree "
+      "is-last/first would be judged per kind and the connectors would lie about the shape")
     tf = m.func("Tree.format_iter")
-    t = [norm(s) for s in tf.body]
-    ok = any(s.startswith("if title is None:") and "title = False if style == 'list' else True" in s for s in t)
-    ok = ok and any(s.startswith("if title:") and "f'{self}' if title is True else f'{title}'" in s for s in t)
-    ok = ok and "has_title = title is not False" in t and any("self._root.format_iter(repr=repr, style=style, add_self=has_title)" in s for s in t)
-    obs.append(ctx.ob("RENDER", ["C16"], tf, "Tree.format_iter: title line first iff title is set; root walk with add_self = (title is not False)", None, ok,
-                      "" if ok else "title default/False/text must keep the prefixes consistent"))
+    ok = has("if title is None:\n    title = False if style == 'list' else True", tf.node) \
+        and has("if title:\n    yield (f'{self}' if title is True else f'{title}')", tf.node)
+    ht = one("$h = title is not False", tf.node)
+    ok = ok and ht is not None and has("self._root.format_iter(repr=repr, style=style, add_self=$h)", tf.node, {"$h": ht[1]["$h"]})
+    O(tf, "Tree.format_iter: title line first iff title is set; root walk with add_self = (title is not False)", ok, "title default/False/text must keep the prefixes consistent")
     fm = m.func("Node.format")
-    ok = any(isinstance(n, ast.Return) and norm(n.value) == "join.join(iter_lines)" for n in fm.body)
-    obs.append(ctx.ob("RENDER", ["C16"], fm, "format joins the lines with the caller's join string", None, ok, ""))
+    it = one("$it = self.format_iter(repr=repr, style=style, add_self=add_self)", fm.node)
+    ok = it is not None and any(isinstance(n, ast.Return) and match("join.join($it)", n.value, {"$it": it[1]["$it"]}) is not None for n in fm.body)
+    O(fm, "format joins the lines with the caller's join string", ok)
     return obs
 
 
 # ------------------------------------------------------------------- C11
-@rule("DIFF", ["C11"], floor=12, section="3.13")
+@rule("DIFF", ["C11", "C08"], floor=12, section="3.13")
 def diff(ctx: Ctx) -> List[Ob]:
     """diff: every classification is written and formatted, REMOVED is set on copies of first-tree children and ADDED on copies of second-tree children, moves only re-label members of those sets, reduce filters on the same meta key, order marks only under `ordered`"""
     obs: List[Ob] = []
     m = ctx.model
     env = ctx.env
+
+    def O(f, label, ok, why="", node=None, props=("C11",)):
+        obs.append(ctx.ob("DIFF", list(props), f, label, node, bool(ok), "" if ok else why))
+
     dc = {k for k in m.classes["DiffClassification"].consts}
     f = m.func("diff_tree")
     fm = m.func("diff_node_formatter")
-    written = {}
+    t0, t1 = f.positional_params()[:2]
+    written: Dict[str, list] = {}
     for g in [f] + list(f.nested) + [m.func("_copy_children")]:
+        for c, e in find("$n.set_meta('dc', DC.$_)", g.node):
+            pass
         for c in env.calls_in[g]:
-            if isinstance(c.func, ast.Attribute) and c.func.attr == "set_meta" and c.args and norm(c.args[0]) == "'dc'" and len(c.args) > 1:
+            if isinstance(c.func, ast.Attribute) and c.func.attr == "set_meta" and len(c.args) > 1 and norm(c.args[0]) == "'dc'":
                 v = norm(c.args[1])
                 if v.startswith("DC.") or v.startswith("DiffClassification."):
                     written.setdefault(v.split(".", 1)[1], []).append((g, c))
         for n in ast.walk(g.node):
             if isinstance(n, ast.Tuple) and len(n.elts) == 2 and norm(n.elts[0]) == "'dc'" and norm(n.elts[1]).startswith("DC."):
                 written.setdefault(norm(n.elts[1]).split(".", 1)[1], []).append((g, n))
+    dcv = one("$dc = $m.get('dc')", fm.node)
+    dn = dcv[1]["$dc"] if dcv else "dc"
     handled = {norm(n.comparators[0]).split(".", 1)[1] for n in iter_own(fm.node)
-               if isinstance(n, ast.Compare) and norm(n.left) == "dc" and norm(n.comparators[0]).startswith("DC.")}
+               if isinstance(n, ast.Compare) and norm(n.left) == dn and norm(n.comparators[0]).startswith("DC.")}
     for member in sorted(dc):
-        ok = member in written
-        obs.append(ctx.ob("DIFF", ["C11"], f, f"DiffClassification.{member} is assigned by diff_tree", None, ok, "" if ok else "a classification that is never set"))
-        ok = member in handled
-        obs.append(ctx.ob("DIFF", ["C11"], fm, f"DiffClassification.{member} is rendered by diff_node_formatter", None, ok, "" if ok else "unhandled mark"))
-    cmp_ = [g for g in f.nested if g.name == "compare"]
+        O(f, f"DiffClassification.{member} is assigned by diff_tree", member in written, "a classification that is never set")
+        O(fm, f"DiffClassification.{member} is rendered by diff_node_formatter", member in handled, "unhandled mark")
+    cmp_ = [g for g in f.nested if len(g.positional_params()) == 3]
     if not cmp_:
-        raise AnalysisError("diff_tree.compare not found")
+        raise AnalysisError("diff_tree: the recursive compare(p0, p1, p2) helper was not found")
     cmp_ = cmp_[0]
-    call = [c for c in env.calls_in[f] if isinstance(c.func, ast.Name) and c.func.id == "compare"]
-    ok = len(call) == 1 and [norm(a) for a in call[0].args] == ["t0._root", "t1._root", "t2._root"]
-    obs.append(ctx.ob("DIFF", ["C11"], f, "compare(t0 root, t1 root, result root)", None, ok, "" if ok else "argument order decides which side is 'removed' and which 'added'"))
+    res = one("$t2 = Tree($$n)", f.node)
+    t2 = res[1]["$t2"] if res else "t2"
+    call = [c for c in env.calls_in[f] if isinstance(c.func, ast.Name) and c.func.id == cmp_.name]
+    ok = len(call) == 1 and [norm(a) for a in call[0].args] == [f"{t0}._root", f"{t1}._root", f"{t2}._root"]
+    O(f, "compare(first root, second root, result root)", ok, "argument order decides which side is 'removed' and which 'added'")
     p0, p1, p2 = cmp_.positional_params()[:3]
-    # provenance of the marks
     for member, src in (("REMOVED", p0), ("ADDED", p1)):
         sites = [(g, c) for g, c in written.get(member, []) if g is cmp_ and isinstance(c, ast.Call)]
         ok = bool(sites)
         for g, c in sites:
             recv = c.func.value
-            vals = env.reaching(g, c, recv.id)[0] if isinstance(recv, ast.Name) and env.reaching(g, c, recv.id) else []
+            r = env.reaching(g, c, recv.id) if isinstance(recv, ast.Name) else None
+            vals = r[0] if r else []
             good = False
             for v in vals:
-                if isinstance(v, ast.Call) and isinstance(v.func, ast.Attribute) and v.func.attr in ("add", "add_child", "append_child") \
-                        and norm(v.func.value) == p2 and v.args and isinstance(v.args[0], ast.Name):
-                    # the copied node comes from a loop over <src>.children
-                    a = v.args[0].id
-                    for b in env.scope(g).resolve(a)[1]:
+                e = match(f"{p2}.add($x)", v) or match(f"{p2}.add_child($x)", v) or match(f"{p2}.append_child($x)", v)
+                if e is not None:
+                    for b in env.scope(g).resolve(e["$x"])[1]:
                         if b.kind in ("elem", "elempart") and f"{src}.children" in norm(b.expr):
                             good = True
             ok = ok and good
-        obs.append(ctx.ob("DIFF", ["C11"], cmp_, f"DC.{member} marks copies of children of the {'first' if src == p0 else 'second'} tree's node", None, ok,
-                          "" if ok else f"the mark must sit on result nodes copied from `{src}.children`"))
-    # one-sided children by data_id
-    t = " | ".join(norm(s) for s in cmp_.body)
-    lp1 = [n for n in iter_own(cmp_.node) if isinstance(n, ast.For) and norm(n.iter) == f"{p1}.children"]
-    ok = len(lp1) == 1 and isinstance(lp1[0].body[0], ast.If) and norm(lp1[0].body[0].test) == f"{norm(lp1[0].target)}._data_id not in p0_data_ids"
-    ids = [c for c in ast.walk(cmp_.node) if isinstance(c, ast.Call) and norm(c.func) == "p0_data_ids.add"]
-    ok = ok and len(ids) == 1 and norm(ids[0].args[0]).endswith("._data_id")
-    obs.append(ctx.ob("DIFF", ["C11"], cmp_, "children only in the second node are found by data_id against the first node's children", None, ok, "" if ok else "added children are those whose data_id the first side lacks"))
-    # removed: not found in p1
+        O(cmp_, f"DC.{member} marks copies of children of the {'first' if src == p0 else 'second'} tree's node", ok,
+          f"the mark must sit on result nodes copied from `{src}.children`")
+    # one-sided children of the second node: by data_id against a set local to this call
+    ids = one("$ids.add($c._data_id)", cmp_.node)
+    ok = ids is not None
+    if ok:
+        I = {"$ids": ids[1]["$ids"]}
+        local_init = [n for n in cmp_.body if match("$ids = set()", n, I) is not None]
+        O(cmp_, "the set of first-side data_ids is created per compare() call (not shared between recursion levels)", len(local_init) == 1,
+          "a set shared across the recursion hides second-tree children whose label occurred in an earlier branch")
+        lp1 = [n for n in iter_own(cmp_.node) if isinstance(n, ast.For) and norm(n.iter) == f"{p1}.children"]
+        ok = len(lp1) == 1 and isinstance(lp1[0].body[0], ast.If) and match(f"{norm(lp1[0].target)}._data_id not in $ids", lp1[0].body[0].test, I) is not None
+        # the ids come from the loop over the first node's children
+        lp0 = [n for n in iter_own(cmp_.node) if isinstance(n, ast.For) and f"{p0}.children" in norm(n.iter)]
+        ok = ok and len(lp0) == 1 and any(x is ids[0] for x in ast.walk(lp0[0]))
+    O(cmp_, "children only in the second node are found by data_id against the first node's children", ok, "added children are those whose data_id the first side lacks")
     fc = [c for c in ast.walk(cmp_.node) if isinstance(c, ast.Call) and norm(c.func) == "_find_child"]
-    ok = len(fc) == 1 and norm(fc[0].args[0]) == f"{p1}.children"
-    obs.append(ctx.ob("DIFF", ["C11"], cmp_, "peers of first-tree children are searched among the second node's children", None, ok, ""))
-    # order marks only under `ordered`
+    O(cmp_, "peers of first-tree children are searched among the second node's children", len(fc) == 1 and norm(fc[0].args[0]) == f"{p1}.children")
     om = [c for c in ast.walk(cmp_.node) if isinstance(c, ast.Call) and isinstance(c.func, ast.Attribute) and c.func.attr == "set_meta"
           and len(c.args) > 1 and isinstance(c.args[1], ast.Tuple)]
-    ok = len(om) == 1 and norm(om[0].args[1]) == "(i0, i1)"
+    ok = len(om) == 1
     if ok:
-        p = m.parent_of(m.parent_of(om[0]))
-        ok = isinstance(p, ast.If) and norm(p.test) == "ordered"
-    obs.append(ctx.ob("DIFF", ["C11"], cmp_, "order marks carry (old index, new index) and are written only when ordered=True", None, ok, "" if ok else "order marks carry the true old and new index"))
+        lp0 = [n for n in iter_own(cmp_.node) if isinstance(n, ast.For) and f"{p0}.children" in norm(n.iter)]
+        e = match(f"for $i0, $c0 in enumerate({p0}.children):\n    ...", lp0[0]) if lp0 else None
+        fe = one(f"$i1, $c1 = _find_child({p1}.children, $c0)", cmp_.node, e) if e else None
+        ok = e is not None and fe is not None and match("($i0, $i1)", om[0].args[1], {**e, **fe[1]}) is not None
+        p_ = m.parent_of(m.parent_of(om[0]))
+        ok = ok and isinstance(p_, ast.If) and norm(p_.test) == "ordered"
+    O(cmp_, "order marks carry (old index, new index) and are written only when ordered=True", ok, "order marks carry the true old and new index")
     # move re-classification
-    lps = [n for n in iter_own(f.node) if isinstance(n, ast.For) and norm(n.iter) == "added_nodes"]
-    ok = len(lps) == 1
+    added_sets = set()
+    for n_, e_ in find("$an.add($c._node_id)", cmp_.node):
+        blk = m.parent_of(m.parent_of(n_))
+        if blk is not None and has("$c.set_meta('dc', DC.ADDED)", getattr(blk, "body", []), {"$c": e_["$c"]}):
+            added_sets.add(e_["$an"])
+    lps = [n for n in iter_own(f.node) if isinstance(n, ast.For) and norm(n.iter) in added_sets]
+    ok = len(lps) == 1 and len(added_sets) == 1
     if ok:
-        t = " | ".join(norm(s) for s in lps[0].body)
-        ok = "other_clones = added_node.get_clones()" in t and "n.get_meta('dc') == DC.REMOVED" in t and "added_node.set_meta('dc', DC.MOVED_HERE)" in t \
-            and "n.set_meta('dc', DC.MOVED_TO)" in t
-    obs.append(ctx.ob("DIFF", ["C11"], f, "a moved-here node is an added node with a removed clone, which becomes moved-away", None, ok, "" if ok else "moves only re-label members of the added/removed sets"))
-    # reduce
+        lp = lps[0]
+        nid = norm(lp.target)
+        e = one(f"$a = {t2}._node_by_id[{nid}]", lp)
+        ok = e is not None
+        if ok:
+            oc = one("$oc = $a.get_clones()", lp, e[1])
+            ok = oc is not None and has("[$n for $n in $oc if $n.get_meta('dc') == DC.REMOVED]", lp, oc[1]) \
+                and has("$a.set_meta('dc', DC.MOVED_HERE)", lp, e[1]) and has("$n.set_meta('dc', DC.MOVED_TO)", lp)
+    O(f, "a moved-here node is an added node with a REMOVED clone, which becomes moved-away", ok, "moves only re-label members of the added/removed sets")
     red = [n for n in f.body if isinstance(n, ast.If) and norm(n.test) == "reduce"]
     ok = len(red) == 1
     if ok:
-        pr = [g for g in f.nested if g.name == "pred"]
-        ok = bool(pr) and any(isinstance(n, ast.Return) and norm(n.value) == "bool(node.get_meta('dc'))" for n in iter_own(pr[0].node))
-        ok = ok and any(isinstance(c, ast.Call) and norm(c.func) == "t2.filter" for c in ast.walk(red[0]))
-    obs.append(ctx.ob("DIFF", ["C11", "C08"], f, "reduce filters the result on the 'dc' mark", None, ok, "" if ok else "reduce keeps exactly the marked nodes and their ancestors"))
-    ok = any(isinstance(n, ast.Return) and norm(n.value) == "t2" for n in f.body)
-    obs.append(ctx.ob("DIFF", ["C11"], f, "the result tree is returned", None, ok, ""))
+        pr = [g for g in f.nested if len(g.positional_params()) == 1 and g is not cmp_]
+        ok = bool(pr) and any(isinstance(n, ast.Return) and match(f"bool({pr[0].positional_params()[0]}.get_meta('dc'))", n.value) is not None for n in iter_own(pr[0].node))
+        ok = ok and has(f"{t2}.filter(predicate={pr[0].name})", red[0]) if pr else False
+    O(f, "reduce filters the result on the truthiness of the 'dc' mark (order tuples included)", ok, "reduce keeps exactly the marked nodes and their ancestors", props=("C11", "C08"))
+    O(f, "the result tree is returned", any(isinstance(n, ast.Return) and norm(n.value) == t2 for n in f.body))
     return obs
